@@ -24,7 +24,7 @@
 -/
 import PrologVerif.Proofs.RelErrors
 import PrologVerif.Proofs.RelList
-import PrologVerif.Proofs.Utf8
+import PrologVerif.Proofs.RelUtf8
 import PrologVerif.Proofs.RelUnify
 import PrologVerif.Proofs.RelSld
 import PrologVerif.Proofs.RelAux
